@@ -370,6 +370,10 @@ const Quaternion<T,Unitary> eigen (const Quaternion<T,Hermitian>& q)
 {
   T p = norm( q.get_vector() );
 
+  // degenerate (zero polarization): q is already diagonal in every basis
+  if (p == 0)
+    return Quaternion<T,Unitary> (1.0);
+
   /*
     q.s0 == 0 is a special case used by calculate_Jacobi and is required
     for the Jacobi method to work on Hermitian matrices.  Unfortunately,
@@ -386,8 +390,23 @@ const Quaternion<T,Unitary> eigen (const Quaternion<T,Hermitian>& q)
   }
   else
   {
-    T m = 1.0 / sqrt( 2.0*p*(p+q.s1) );
-    return Quaternion<T,Unitary> (m*(p+q.s1), 0.0, -m*q.s3, m*q.s2);
+    T sum = p + q.s1;
+
+    if (q.s1 < 0)
+    {
+      /* reached only when q.s0 == 0: p + q.s1 cancels when the vector lies
+         close to the -s1 axis; use (p+s1)(p-s1) = s2^2 + s3^2 instead */
+      T perp = q.s2*q.s2 + q.s3*q.s3;
+
+      // exactly along the -s1 axis: exchange the two eigenvectors
+      if (perp == 0)
+        return Quaternion<T,Unitary> (0.0, 0.0, -1.0, 0.0);
+
+      sum = perp / (p - q.s1);
+    }
+
+    T m = 1.0 / sqrt( 2.0*p*sum );
+    return Quaternion<T,Unitary> (m*sum, 0.0, -m*q.s3, m*q.s2);
   }
 }
 
